@@ -19,6 +19,7 @@ class G:
         self.libq = {}       # qualified import m: name -> title
         self.libu = {}       # unqualified import: name -> title
         self.unbound = False
+        self.clash = None
         self.pool = list(POOL)
 
     def fresh(self, p):
@@ -93,13 +94,24 @@ class G:
         dup = None
         if r.random() < 0.05 and self.decls:
             dup = r.choice(list(self.decls))
-        lines = list(uses)
+        if self.libu and r.random() < 0.08:
+            # a declaration with the name of an unqualified import: an error in the code (K8), never a silent choice
+            self.clash = r.choice(list(self.libu))
+        lines = []
         for n, e in self.decls.items():
             lines.append("let %s = %s;" % (n, render(e)))
         if dup:
             lines.append("let %s = str;" % dup)
+        if self.clash:
+            lines.append('let %s = num `title: "D:%s"`;' % (self.clash, self.clash))
         for f, (ps, b) in self.funcs.items():
             lines.append("let %s %s = %s;" % (f, " ".join(ps), render(b)))
+        # imports usually come first; the language also allows them between or after the declarations
+        if uses and r.random() < 0.25:
+            for u in uses:
+                lines.insert(r.randint(0, len(lines)), u)
+        else:
+            lines = list(uses) + lines
         for i, e in enumerate(res):
             lines.append("res /r%d on get -> <%s>;" % (i, render(e)))
         mods["file:///w/main.oal"] = "\n".join(lines) + "\n"
@@ -362,6 +374,13 @@ def check(ctx):
         if st in ("crash", "panic"):
             ctx.violation("name resolution / evaluation does not finish normally on a shadowing-heavy program", inp, "a result", r.get("msg"))
             continue
+        if g.clash and not dup:
+            if st == "error" and r.get("kind") == "InvalidIdentifier":
+                ctx.count("clash_with_import_rejected_K8")
+            elif st == "ok":
+                ctx.violation("a declaration with the name of an unqualified import is accepted: which of the two its uses denote is decided "
+                              "silently by the order of the statements", inp, "identifier already exists (K8)", "accepted")
+            continue
         # expected outcome
         try:
             ref = Ref(g)
@@ -413,6 +432,6 @@ def check(ctx):
                        "nested rec binders from the pool, qualified and unqualified imports, applications passing parameters / rec variables on; every binder "
                        "carries a distinct title marker; expected document from a lexical reference interpreter, compared after unfolding $refs to depth 3; "
                        "4% unbound uses and 5% duplicate declarations expected to be rejected. distinct_nontrivial = distinct accepted programs")
-    ctx.assumptions = ["declarations clashing with an unqualified import or a builtin are an error in the code (K8) and are not generated",
+    ctx.assumptions = ["declarations clashing with an unqualified import are an error in the code (K8): generated, and required to be rejected; clashes with a builtin are not generated",
                        "two unqualified imports exporting one name (K9) are not generated"]
     return core.finish(ctx)
